@@ -249,23 +249,35 @@ def _execute(view, cfg, ctx, sched):
 
     def match(d, emp, tag, has_reward):
         try:
-            got = [(k, float(p)) for k, p in d.items()]
+            got = [(_ids(k, has_reward), float(p)) for k, p in d.items()]
             tot = sum(p for k, p in got)
+        except (Violation, Inconclusive):
+            raise
         except Exception as e:
             raise Violation('result-shape', f"{tag}: malformed distribution: {type(e).__name__}: {e}")
         ctx.check(close(tot, 1.0, 1e-9, 1e-9), 'semimdp-normalised', lambda: f"{tag}: probabilities sum to {tot!r}")
-        for k, p in emp.items():
-            def same(k2):
-                if has_reward:
-                    return k2[:-1] == k[:-1] and close(k2[-1], k[-1], 1e-9, 1e-9)
-                return k2 == k
-            m = sum(p2 for k2, p2 in got if same(_ids(k2, has_reward)))
-            ctx.check(close(m, p, 1e-9, 1e-9), 'semimdp-empirical', lambda: f"{tag}: outcome {k} has probability {m!r}, empirical frequency over its own {nsim} simulations is {p!r} (returned {got})")
-        for k2, p2 in got:
-            if p2 > 0:
-                kk = _ids(k2, has_reward)
-                ctx.check(any((kk[:-1] == k[:-1] and close(kk[-1], k[-1], 1e-9, 1e-9)) if has_reward else kk == k for k in emp), 'semimdp-empirical',
-                          lambda: f"{tag}: outcome {kk} with probability {p2!r} was never simulated")
+        # Outcomes whose discounted reward differs only by float rounding (gamma**t vs repeated multiplication, or two
+        # simulations summing in the same order to 1 ulp apart) are one outcome: cluster rewards within 1e-9 on both sides.
+        groups = {}
+        for side, items in (('got', got), ('emp', list(emp.items()))):
+            for k, p in items:
+                disc, rew = (k[:-1], k[-1]) if has_reward else (k, 0.0)
+                groups.setdefault(disc, []).append((rew, side, p))
+        for disc, ents in groups.items():
+            ents.sort(key=lambda e: e[0])
+            clusters = []
+            for rew, side, p in ents:
+                if clusters and close(clusters[-1]['hi'], rew, 1e-9, 1e-9):
+                    c = clusters[-1]
+                else:
+                    c = dict(lo=rew, hi=rew, got=0.0, emp=0.0)
+                    clusters.append(c)
+                c['hi'] = rew
+                c[side] += p
+            for c in clusters:
+                ctx.check(close(c['got'], c['emp'], 1e-9, 1e-9), 'semimdp-empirical',
+                          lambda: f"{tag}: outcome {disc + ((c['lo'],) if has_reward else ())} has probability {c['got']!r}, its empirical frequency over the "
+                          f"{nsim} simulations is {c['emp']!r} (returned {got})")
 
     def _ids(k, has_reward):
         try:
